@@ -429,6 +429,38 @@ def check(run):
     run.floor("functions that sort / de-duplicate", n10, 100)
     run.assume("element values are bounded only by the range guard read from the source; row count is irrelevant to the packing")
     run.assume("np.bitwise_xor/or/add of fields occupying disjoint bit ranges is injective (arithmetic fact)")
+    # ------------------------------------------------------------------ R11 the default precision is read when the call is made
+    run.rule("R11", "grouping.py: the default number of digits follows the live setting `tol.merge` - it is read inside the function at call time, never "
+                    "frozen at import (module-level constant or default argument derived from `tol.*`)")
+    gm = ix.modules["trimesh.grouping"]
+    n11 = 0
+    frozen = []
+    for st in gm.tree.body:
+        if isinstance(st, (ast.FunctionDef, ast.ClassDef, ast.Import, ast.ImportFrom)):
+            continue
+        for x in ast.walk(st):
+            if isinstance(x, ast.Attribute) and isinstance(x.value, ast.Name) and x.value.id == "tol":
+                frozen.append((st, f"module-level `{ast.unparse(st)[:70]}`"))
+    for f in ix.all_functions:
+        if f.module is not gm:
+            continue
+        a_ = f.node.args
+        for d_ in list(a_.defaults) + [k_ for k_ in a_.kw_defaults if k_ is not None]:
+            if any(isinstance(x, ast.Attribute) and isinstance(x.value, ast.Name) and x.value.id == "tol" for x in ast.walk(d_)):
+                frozen.append((f.node, f"default argument `{ast.unparse(d_)[:40]}` of {f.qualname}"))
+        if "digits" in f.params or any(p_.startswith("digits") for p_ in f.params):
+            live = any(isinstance(x, ast.Attribute) and isinstance(x.value, ast.Name) and x.value.id == "tol" for x in ast.walk(f.node))
+            n11 += 1
+            run.instance("R11", f.where, f"{f.qualname}: reads tol.* at call time: {live}", True, nontrivial=live)
+    for st, what in frozen:
+        names = [t.id for t in getattr(st, "targets", []) if isinstance(t, ast.Name)]
+        used = [f.qualname for f in ix.all_functions if f.module is gm and any(isinstance(x, ast.Name) and x.id in names for x in ast.walk(f.node))] if names else ["(default)"]
+        run.instance("R11", f"{gm.rel}:{st.lineno} <module>", f"{what} is evaluated once at import; used by {used[:4]}", not used)
+        if used:
+            run.violation("R11", f"{gm.rel}:{st.lineno} <module>", f"{what} freezes the merge tolerance at import time, and {', '.join(used[:4])} use(s) it where the tolerance was "
+                          f"read per call: after `trimesh.tol.merge = x` the grouping primitives called with digits=None still round to the old number of digits, while "
+                          f"merge_runs / the path code follow the new setting", key=key_of("C06-R11", "frozen-tol", names[0] if names else what[:30]))
+    run.floor("grouping functions with a digits parameter", n11, 3)
     return {
         "explanation": "Interval abstract interpretation of the bit-packing block of grouping.hashable_rows for each "
         "column count admitted by its guard: fields disjoint, no dtype overflow on any intermediate, top bit <= 63; "
